@@ -7,6 +7,7 @@ import (
 	"bytes"
 	"encoding/json"
 	"fmt"
+	"math/rand"
 
 	"github.com/ipfs/go-cid"
 	"github.com/ipld/go-ipld-prime"
@@ -321,4 +322,316 @@ func init() {
 	for _, p := range []string{"C01", "C05", "C06", "C17"} {
 		replays["ucan:"+p] = ucanReplay(p)
 	}
+	drivers["story"] = storyDriver
+}
+
+// storyDriver records end-to-end stories from the real code for TraceUcan.tla: a random store of up to 5
+// delegations (any issuer incl. the adversary, powerline), an invocation over a proof list (found by trying
+// lists on the real code, or random), all of it packed into one container, up to 3 acts of the adversary on
+// the container's entries, then read + GetInvocation + ExecutionAllowed(container).
+func storyDriver(seed int64, n int, emit func(any)) error {
+	rng := rand.New(rand.NewSource(seed))
+	w := newWorld(seed, fastAlgs)
+	mal, err := w.principal("M")
+	if err != nil {
+		return err
+	}
+	names := []string{"A", "B", "C", "M"}
+	cmds := [][]string{chars("/a"), chars("/a/b"), chars("/ab"), chars("/")}
+	pols := [][][]bool{{}, {{true, false, false, false}}, {{true, true, false, false}, {true, false, true, false}}, {{true, true, true, true}}}
+	missing := absLink{Missing: true, Iss: "A", Aud: "A", Sub: "A", Cmd: chars("/"), Pol: [][]bool{}, Nbf: -1, Exp: -1}
+	nameOf := func(d string) string {
+		for n, p := range w.principals {
+			if p.id.String() == d {
+				return n
+			}
+		}
+		return "?"
+	}
+	for it := 0; it < n; it++ {
+		// the store
+		sz := 1 + rng.Intn(5)
+		var store []absLink
+		sub := names[rng.Intn(2)]
+		for len(store) < sz {
+			l := absLink{Iss: names[rng.Intn(4)], Aud: names[rng.Intn(4)], Sub: sub, Cmd: cmds[rng.Intn(len(cmds))], Pol: pols[rng.Intn(len(pols))], Nbf: -1, Exp: -1}
+			switch rng.Intn(8) {
+			case 0:
+				l.Sub = names[rng.Intn(4)]
+			case 1:
+				l.Sub = "Undef"
+			}
+			if len(store) == 0 && rng.Intn(4) != 0 {
+				l.Iss, l.Sub = sub, sub
+			} else if len(store) > 0 && rng.Intn(3) != 0 {
+				l.Iss = store[rng.Intn(len(store))].Aud
+			}
+			dup := false
+			for _, o := range store {
+				if fmt.Sprint(o) == fmt.Sprint(l) {
+					dup = true
+				}
+			}
+			if !dup {
+				store = append(store, l)
+			}
+		}
+		inv := absInv{Iss: names[rng.Intn(4)], Sub: sub, Aud: "None", Cmd: cmds[rng.Intn(3)], Arg: rng.Intn(2), Exp: -1, Hook: "none"}
+		if rng.Intn(3) != 0 {
+			inv.Iss = store[rng.Intn(len(store))].Aud
+		}
+		// the proof list: one the real code accepts (when there is one and the coin says so: the invoker, the command and
+		// the arguments are then chosen among those for which one exists), else random
+		var prf []absLink
+		if rng.Intn(4) != 0 {
+			tried := 0
+			var found []absLink
+			var rec func(prefix []absLink)
+			rec = func(prefix []absLink) {
+				if found != nil || tried > 300 {
+					return
+				}
+				if len(prefix) > 0 {
+					c := chainCase{Inv: inv, Links: prefix, Now: 1}
+					got, _, err := w.validateReal(&c, 0)
+					tried++
+					if err == nil && got {
+						found = prefix
+						return
+					}
+				}
+				if len(prefix) >= 4 || len(prefix) >= len(store) {
+					return
+				}
+				for _, l := range store {
+					if len(prefix) == 0 && l.Aud != inv.Iss {
+						continue // cannot be the first proof: skip the subtree
+					}
+					rec(append(append([]absLink{}, prefix...), l))
+				}
+			}
+			inv1 := inv
+			for _, who := range rng.Perm(4) {
+				for _, ci := range rng.Perm(3) {
+					if found != nil {
+						break
+					}
+					inv = inv1
+					inv.Iss, inv.Cmd = names[who], cmds[ci]
+					tried = 0
+					rec(nil)
+				}
+			}
+			if found == nil {
+				inv = inv1
+			}
+			prf = found
+		}
+		if prf == nil {
+			for k := rng.Intn(4); k > 0; k-- {
+				if rng.Intn(6) == 0 {
+					prf = append(prf, missing)
+				} else {
+					prf = append(prf, store[rng.Intn(len(store))])
+				}
+			}
+		}
+		if prf == nil {
+			prf = []absLink{}
+		}
+		emit(map[string]any{"ev": "Story", "inv": evInv{inv.Iss, inv.Sub, inv.Aud, inv.Cmd, inv.Arg, inv.Exp, inv.Hook}})
+		type entry struct {
+			ucanEntry
+			ok   bool
+			issM bool
+		}
+		var entries []entry
+		for _, l := range store {
+			m, err := w.link(l, 1)
+			if err != nil {
+				return err
+			}
+			emit(map[string]any{"ev": "Issue", "d": l})
+			entries = append(entries, entry{ucanEntry{"dlg", m.sealed, m.id}, true, l.Iss == "M"})
+		}
+		// the model packs the store in the order of its own choice (SetToSeqU); the adversary addresses entries by
+		// position, so positions are taken from the order the model uses: it is logged by the CID-free key below
+		var prfCids []cid.Cid
+		for i, l := range prf {
+			if l.Missing {
+				prfCids = append(prfCids, missingCid(i))
+				continue
+			}
+			m, err := w.link(l, 1)
+			if err != nil {
+				return err
+			}
+			prfCids = append(prfCids, m.id)
+		}
+		iss, err := w.principal(inv.Iss)
+		if err != nil {
+			return err
+		}
+		subD, err := w.didOf(inv.Sub)
+		if err != nil {
+			return err
+		}
+		cmd, err := cmdOf(inv.Cmd)
+		if err != nil {
+			return err
+		}
+		tok, err := invocation.New(iss.id, subD, cmd, prfCids, invocation.WithArguments(concreteArgs(inv.Arg)))
+		if err != nil {
+			return err
+		}
+		isealed, iid, err := tok.ToSealed(iss.priv)
+		if err != nil {
+			return err
+		}
+		emit(map[string]any{"ev": "Invoke", "prf": prf})
+		f := []string{"car", "carb64", "cbor", "cborb64"}[rng.Intn(4)]
+		emit(map[string]any{"ev": "Pack", "fmt": f, "ord": store})
+		entries = append([]entry{{ucanEntry{"inv", isealed, iid}, true, inv.Iss == "M"}}, entries...)
+		// the adversary; delegations are addressed by content (`tok`), the specification finds the position
+		for acts := []int{0, 0, 1, 1, 2, 3}[rng.Intn(6)]; acts > 0; acts-- {
+			k := rng.Intn(len(entries))
+			how := []string{"flip", "rewrite", "resign", "drop", "dup"}[rng.Intn(5)]
+			e := entries[k]
+			if (how == "rewrite" || how == "resign") && !e.ok || how == "resign" && e.issM {
+				how = "dup"
+			}
+			if how == "drop" && len(entries) == 1 {
+				how = "flip"
+			}
+			switch how {
+			case "flip":
+				d := append([]byte{}, e.data...)
+				d[10+rng.Intn(20)] ^= 1 << uint(rng.Intn(8))
+				relabel := rng.Intn(2) == 0
+				for j, o := range entries {
+					if j != k && o.id == e.id {
+						relabel = true // a second entry under the same label would shadow this one
+					}
+				}
+				if relabel {
+					entries[k] = entry{ucanEntry{e.typ, d, cborCid(d)}, false, e.issM}
+				} else {
+					entries[k] = entry{ucanEntry{e.typ, d, e.id}, false, e.issM}
+				}
+			case "rewrite", "resign":
+				parts, err := partsOf(e.data, e.typ)
+				if err != nil {
+					return err
+				}
+				if how == "resign" {
+					parts.payload["iss"] = basicnode.NewString(mal.id.String())
+					hdr, err := headerOf(mal)
+					if err != nil {
+						return err
+					}
+					parts.hdr = basicnode.NewBytes(hdr)
+					if err := parts.signBy(mal); err != nil {
+						return err
+					}
+				} else if e.typ == "dlg" {
+					z, err := w.principal("Z")
+					if err != nil {
+						return err
+					}
+					parts.payload["aud"] = basicnode.NewString(z.id.String())
+				} else {
+					parts.payload["cmd"] = basicnode.NewString("/")
+				}
+				d, err := ipld.Encode(parts.node(), dagcbor.Encode)
+				if err != nil {
+					return err
+				}
+				entries[k] = entry{ucanEntry{e.typ, d, cborCid(d)}, how == "resign", e.issM || how == "resign"}
+			case "drop":
+				entries = append(append([]entry{}, entries[:k]...), entries[k+1:]...)
+			case "dup":
+				entries = append(entries, e)
+			}
+			emit(map[string]any{"ev": "Wire", "k": k + 1, "how": how})
+		}
+		cw := container.NewWriter()
+		for _, e := range entries {
+			cw.AddSealed(e.id, e.data)
+		}
+		var data []byte
+		switch f {
+		case "car":
+			data, err = cw.ToCar()
+		case "carb64":
+			data, err = cw.ToCarBase64()
+		case "cbor":
+			data, err = cw.ToCbor()
+		default:
+			data, err = cw.ToCborBase64()
+		}
+		if err != nil {
+			return err
+		}
+		real := "allowed"
+		var rd container.Reader
+		func() {
+			defer func() {
+				if r := recover(); r != nil {
+					err = fmt.Errorf("panic: %v", r)
+				}
+			}()
+			if rng.Intn(2) == 0 {
+				switch f {
+				case "car":
+					rd, err = container.FromCar(data)
+				case "carb64":
+					rd, err = container.FromCarBase64(data)
+				case "cbor":
+					rd, err = container.FromCbor(data)
+				default:
+					rd, err = container.FromCborBase64(data)
+				}
+			} else {
+				r := bytes.NewReader(data)
+				switch f {
+				case "car":
+					rd, err = container.FromCarReader(r)
+				case "carb64":
+					rd, err = container.FromCarBase64Reader(r)
+				case "cbor":
+					rd, err = container.FromCborReader(r)
+				default:
+					rd, err = container.FromCborBase64Reader(r)
+				}
+			}
+		}()
+		var executed *invocation.Token
+		if err != nil {
+			real = "unreadable"
+		} else if executed, err = rd.GetInvocation(); err != nil {
+			real = "noinvocation"
+		} else {
+			ok, stage := safeAllowed(func() error { return executed.ExecutionAllowed(rd) })
+			if !ok {
+				real = stage
+			}
+		}
+		ev := map[string]any{"ev": "Execute", "outcome": real, "reached": executed != nil}
+		if executed != nil {
+			arg := 9
+			for p := 0; p < 3; p++ {
+				if executed.Arguments().Equals(concreteArgs(p).ReadOnly()) {
+					arg = p
+					break
+				}
+			}
+			xsub := "Undef"
+			if executed.Subject().Defined() {
+				xsub = nameOf(executed.Subject().String())
+			}
+			ev["xinv"] = map[string]any{"iss": nameOf(executed.Issuer().String()), "sub": xsub, "cmd": chars(executed.Command().String()), "arg": arg}
+		}
+		emit(ev)
+	}
+	return nil
 }
